@@ -122,8 +122,17 @@ def check_edit_sequence(ctx, case):
     live = G.hex_to_acc(k, case["states"][0]["arcs"])     # the one object the library sees throughout
     shuf_obj = table_of(case["table"], k)
     shuf_before = None if shuf_obj is None else shuf_obj.copy()
+    trng = __import__("random").Random(len(case["states"]) * 7919 + k)
     for i, st in enumerate(case["states"]):
         live[...] = G.hex_to_acc(k, st["arcs"])
+        if shuf_obj is not None and i > 0:
+            # the caller re-draws some rows of the *same* table object between round trips
+            for _r in range(max(1, len(shuf_obj) // 3)):
+                row = shuf_obj[trng.randrange(len(shuf_obj))]
+                perm = row.tolist()
+                trng.shuffle(perm)
+                row[...] = perm
+            shuf_before = shuf_obj.copy()
         sub = dict(k=k, arcs=st["arcs"], start=st["start"], bits=case["msgs"][i], fast=case["fast"], table=case["table"],
                    vt=case["vt"], dtype=case["dtype"], mclass="edit-sequence", fam="edit-sequence")
         before = ctx.violation_count
